@@ -38,6 +38,7 @@ func report(g *Gen, p *PropConfig, bl *Baseline, out *CheckOutcome, tier string,
 	var undecidedNew []string
 	var vacuous []string
 	notClaimedKinds := map[string]int{}
+	var notClaimedList []map[string]string
 	obligations, discharged := 0, 0
 	covTotal, covSat, covUnk := 0, 0, 0
 	toolErr := ""
@@ -74,6 +75,9 @@ func report(g *Gen, p *PropConfig, bl *Baseline, out *CheckOutcome, tier string,
 			continue
 		}
 		notClaimedKinds[r.Kind]++
+		if len(notClaimedList) < 400 {
+			notClaimedList = append(notClaimedList, map[string]string{"obligation": r.ID, "answer": r.Answer})
+		}
 		if r.Answer == "sat" && !bl.NotClaimed[r.ID] {
 			if _, ok := known[r.ID]; ok {
 				knownHit = append(knownHit, r)
@@ -275,7 +279,7 @@ func report(g *Gen, p *PropConfig, bl *Baseline, out *CheckOutcome, tier string,
 		"solver_secs_total":        out.SolverSecs,
 		"solver_secs_max":          out.MaxSecs,
 		"smt_bytes_generated":      out.SMTBytes,
-		"not_claimed":              map[string]interface{}{"by_kind": notClaimedKinds, "note": "obligations generated for these functions that are not in the baseline (never counted as proved; assumed where later obligations depend on them)"},
+		"not_claimed":              map[string]interface{}{"by_kind": notClaimedKinds, "list": notClaimedList, "note": "obligations generated for these functions that are not in the baseline (never counted as proved; assumed where later obligations depend on them)"},
 		"undecided_new":            undecidedNew,
 		"missing_from_tree":        missing,
 		"vacuity_probes":           map[string]interface{}{"total": covTotal, "reachable_sat": covSat, "not_refuted": covUnk, "unreachable": vacuous},
